@@ -522,7 +522,7 @@ pub fn structural(prop: &'static str, cfg: &Config) -> PropRun {
     match prop {
         "C03" => sp.extend(crate::templates::t3_spaces(cfg.tier)),
         "C04" => sp.extend(crate::templates::t4_spaces(cfg.tier)),
-        "C07" => sp.extend(crate::templates::t7_spaces(cfg.tier)),
+        "C07" | "C06" => sp.extend(crate::templates::t7_spaces(cfg.tier)),
         _ => {}
     }
     if prop == "C01" && cfg.tier == Tier::Thorough {
